@@ -152,6 +152,7 @@ func (fr *Frame) callCommon(st *State, g string, site ssa.Instruction, c *ssa.Ca
 				return fr.staticCall(st, g, site, callee, append([]ssa.Value{mi.X}, c.Args...), full, pos, nil)
 			}
 		}
+		fr.callSiteAsserts(st, g, name, false, args, nil, pos)
 		if fc := eng.lookupExtern(name, "method"); fc != nil {
 			return fr.applyAssumed(st, g, fc, name, append([]string{recv}, args...), paramTypesWithRecv(recvT, sig), sig, pos, site)
 		}
@@ -629,6 +630,34 @@ func (fr *Frame) applyAssumed(st *State, g string, fc *FuncContract, name string
 			st = fr.emitEffect(st, eu.Name, eargs)
 		}
 	}
+	// effects the external may emit through callbacks it is handed (havoc, monotone)
+	if len(fc.Effects) > 0 {
+		names := map[string]bool{}
+		allGhost := false
+		for _, e := range fc.Effects {
+			if e == "*" {
+				allGhost = true
+				continue
+			}
+			cnt, tm, avs := vc.effectVars(e)
+			names[cnt], names[tm] = true, true
+			for _, a := range avs {
+				names[a] = true
+			}
+			if t := fr.top(); t.fc != nil && !t.effectAllowed(e) {
+				vc.addObl(&Obligation{Name: fmt.Sprintf("%s#frame.effect.%s", vc.unit, e), Kind: "frame", Props: t.props(),
+					Guard: "true", Goal: "false", Src: "callee " + fc.Name + " may emit effect " + e + " which is not listed in the caller's effects clause"})
+			}
+		}
+		names[vc.clkVar()] = true
+		for n := range names {
+			fr.recordWrite(n)
+		}
+		if allGhost {
+			fr.recordHavocAll(false, true)
+		}
+		st = st.havoc(vc.fresh("eff"), names, false, allGhost)
+	}
 	// modifies
 	if !fc.Pure {
 		st = fr.applyModifies(st, pre, fc, env, args, ptypes)
@@ -677,6 +706,21 @@ func (fr *Frame) applyModifies(st, pre *State, fc *FuncContract, env *Env, args 
 			}
 			fr.recordWrite(name)
 			st = st.havoc(vc.fresh("mod"), map[string]bool{name: true}, false, false)
+		case strings.HasPrefix(item, "array "):
+			// every backing array with the named element type may change
+			te, err := ParseType(strings.TrimSpace(item[6:]))
+			if err != nil {
+				panic(bindErr("bad modifies item " + item))
+			}
+			hv := vc.arrHeapVar(vc.eng.resolveType(te, env.pkg))
+			fr.recordWrite(hv)
+			st = st.havoc(vc.fresh("mod"), map[string]bool{hv: true}, false, false)
+		case strings.HasPrefix(item, "type "):
+			// every object of the named struct type may change
+			t := vc.eng.resolveType(mustParseType(strings.TrimSpace(item[5:])), env.pkg)
+			hv := vc.heapVar(t)
+			fr.recordWrite(hv)
+			st = st.havoc(vc.fresh("mod"), map[string]bool{hv: true}, false, false)
 		case strings.HasPrefix(item, "global "):
 			gname := strings.TrimSpace(item[7:])
 			found := false
@@ -895,9 +939,11 @@ func (fr *Frame) callSiteAsserts(st *State, g string, cname string, after bool, 
 			continue
 		}
 		env := t.newEnvAt(st)
-		for i, p := range callee.Params {
-			if i < len(args) {
-				env.names["arg"+fmt.Sprint(i)] = TV{term: args[i], typ: p.Type()}
+		if callee != nil {
+			for i, p := range callee.Params {
+				if i < len(args) {
+					env.names["arg"+fmt.Sprint(i)] = TV{term: args[i], typ: p.Type()}
+				}
 			}
 		}
 		tt := t.evalGoal(a.C, env, "call-site assertion")
@@ -1180,4 +1226,12 @@ func (fr *Frame) variadicElems(st *State, argVals []ssa.Value) []string {
 		out = append(out, fr.load(st, el))
 	}
 	return out
+}
+
+func mustParseType(src string) TypeExpr {
+	t, err := ParseType(src)
+	if err != nil {
+		panic(bindErr("bad type " + src))
+	}
+	return t
 }
